@@ -640,6 +640,11 @@ func (b *body) readTrailer() error {
 	}
 	switch rr := b.hdr.(type) {
 	case *Request:
+		for k := range hdr {
+			if !validHeaderName(k) {
+				return &badStringError{"invalid trailer name", k}
+			}
+		}
 		rr.Trailer = Header(hdr)
 	case *Response:
 		rr.Trailer = Header(hdr)
